@@ -17,4 +17,6 @@ def run(ctx):
     modelrules.I1(ctx)
     modelrules.I2(ctx)
     modelrules.I3(ctx)
+    from . import pathrules
+    pathrules.X4(ctx)
     P5(ctx)
